@@ -17,7 +17,9 @@ import warnings
 
 import numpy as np
 
-from runner import Infra
+from fractions import Fraction
+
+from runner import Infra, TieBroken
 
 ID = "C01"
 LEAN_MODULES = [
@@ -28,6 +30,11 @@ LEAN_MODULES = [
     "PyYetiVerif.Props.C01Coupled",
     "PyYetiVerif.Props.C01Delconj",
     "PyYetiVerif.Props.C01Exp",
+    "PyYetiVerif.Props.C01Exp1",
+    "PyYetiVerif.Props.C01Rb",
+    "PyYetiVerif.Props.C01StaticC",
+    "PyYetiVerif.Props.C01PreEig",
+    "PyYetiVerif.Props.C01Cuts",
     "PyYetiVerif.Audit.C01",
 ]
 AUDIT_FILE = "PyYetiVerif/Audit/C01.lean"
@@ -47,7 +54,18 @@ THEOREMS = [
         "decoupled_recovers coupled_step_exact coupled_run_exact sol2R_exists delconj_recovers coupled_run_exact_real "
         "oscKept_spec "
         # SolveExp2 (Props/C01Exp.lean)
-        "exp2_step_exact exp2_run_exact freeA_spec"
+        "exp2_step_exact exp2_run_exact freeA_spec "
+        # SolveExp1 (Props/C01Exp1.lean)
+        "exp1_step_exact exp1_run_exact exp1_history_not_converted exp1_velo_is_derivative exp1_init zeroA_spec "
+        # rigid-body recurrence of the coupled path (Props/C01Rb.lean)
+        "rb_step_is_rigid_regime rb_step_exact rb_run_is_runUnc rb_run_exact "
+        # linear solves of the coupled paths (Props/C01StaticC.lean)
+        "lin_solve_spec mass_solve_spec static_ic_coupled_is_equilibrium static_ic_coupled_accel_zero accel_coupled_eom "
+        # pre_eig (Props/C01PreEig.lean)
+        "pre_eig_solution_is_solution pre_eig_mass_forms_agree pre_eig_damping_forms_agree pre_eig_ic_consistent "
+        "pre_eig_ic_is_phiT_M pre_eig_first_sample "
+        # cut-offs as the source spells them (Props/C01Cuts.lean, about Generated/SuCoefCuts.lean)
+        "cuts_as_documented crit_regimes_partition classify_elastic_spec classify_rb_spec classify_auto_rb_iff"
     ).split()
 ]
 TRUSTED = [
@@ -135,6 +153,21 @@ MANIFEST = {
 }
 
 NAMES = "F G A B Fp Gp Ap Bp".split()
+
+
+# ---------------------------------------------------------------------------------------
+# translator: the regime cut-offs of the source -> lean/PyYetiVerif/Generated/SuCoefCuts.lean
+
+
+def translate(ctx):
+    from translate import c01_sucoefcuts as tr
+
+    try:
+        c = tr.run(ctx.repo, ctx.lean)
+    except tr.Unparsable as e:
+        raise TieBroken("cut-offs of get_su_coef / _get_complex_su_coefs / _make_rb_el: %s" % e)
+    ctx.extra["cutoffs_of_the_source"] = c
+    return ["SuCoefCuts"]
 
 
 # ---------------------------------------------------------------------------------------
@@ -1061,13 +1094,6 @@ def _gen_pc_specs(ctx, rng, n_general, n_modal):
     return out
 
 
-def _static_d0(K, F0, el, n):
-    d0 = np.zeros(n)
-    if len(el) and np.any(F0[el]):
-        d0[el] = np.linalg.solve(K[np.ix_(el, el)], F0[el])
-    return d0
-
-
 def _state_matrix(M, B, K):
     n = K.shape[0]
     Mi = np.linalg.inv(M)
@@ -1117,6 +1143,224 @@ def _delconj_spec(pc, A):
     return float(res), float(cond)
 
 
+def _drive(drv, gens):
+    """run generator jobs in lockstep: each job yields a list of request lines and is sent the list of replies
+    (one driver process per round, not per job); returns the jobs' return values in order"""
+    results = [None] * len(gens)
+    active = {}
+    for i, g in enumerate(gens):
+        try:
+            active[i] = (g, next(g))
+        except StopIteration as e:
+            results[i] = e.value
+    while active:
+        order = list(active)
+        flat = [r for i in order for r in active[i][1]]
+        rep = drv.ask(flat)
+        pos, nxt = 0, {}
+        for i in order:
+            g, reqs = active[i]
+            mine = rep[pos:pos + len(reqs)]
+            pos += len(reqs)
+            try:
+                nxt[i] = (g, g.send(mine))
+            except StopIteration as e:
+                results[i] = e.value
+        active = nxt
+    return results
+
+
+def _fvals(r, what):
+    if not r.startswith("ok"):
+        raise Infra("model refuses %s: %s" % (what, r[:120]))
+    return np.array([unbits(t) for t in r.split()[1:]])
+
+
+def _qvals(r, what):
+    """`ok n/d n/d …` -> list of Fractions"""
+    if not r.startswith("ok"):
+        raise Infra("model refuses %s: %s" % (what, r[:120]))
+    out = []
+    for t in r.split()[1:]:
+        if "/" in t:
+            a, b = t.split("/")
+            out.append(Fraction(int(a), int(b)))
+        else:
+            out.append(t)
+    return out
+
+
+def _job_static_msolve(M, K, F, el, extra, static_wanted):
+    """round 1 of the coupled jobs: the static initial state of the elastic rows over the rationals (`staticc`),
+    M^-1 F on the index sets of `extra` at Float (`msolve`).  Yields one request list; returns (x | None, [M^-1 F …])"""
+    reqs = []
+    if static_wanted:
+        ee = np.ix_(el, el)
+        reqs.append("staticc %d %s %s" % (len(el), _fmat(K[ee]), _fmat(F[el, 0])))
+    for idx in extra:
+        if M is not None and len(idx):
+            reqs.append("msolve %d %s %d %s" % (len(idx), _fmat(M[np.ix_(idx, idx)]), F.shape[1], _fmat(F[idx])))
+    rep = yield reqs
+    rep = list(rep)
+    x = None
+    if static_wanted:
+        r = rep.pop(0)
+        if r == "singular":
+            return "singular", None
+        x = np.array([float(q) for q in _qvals(r, "a static initial state")])
+    sols = []
+    for idx in extra:
+        if M is not None and len(idx):
+            r = rep.pop(0)
+            if r == "singular":
+                return "singular", None
+            sols.append(_fvals(r, "a mass solve").reshape(len(idx), F.shape[1]))
+        else:
+            sols.append(F[idx].copy())
+    return x, sols
+
+
+def _job_unc_coupled(ctx, ts, M, B, K, F, d0, v0, static, tag="pc"):
+    """the Lean model of SolveUnc's coupled path on the matrices the solver works with (`M` None: identity), driven
+    by the implementation's own pc.lam / ur / ur_inv; every linear solve is done by the model (Gauss elimination:
+    static initial state over Q, M^-1 F and the acceleration at Float).
+    Returns {"d","v","a","cond"} | ("skip", why) | ("disagree", stream, impl, model)."""
+    n, nt = F.shape
+    h, o = ts.h, ts.order
+    el, rb, kd = _idx(ts.el, n), _idx(ts.rb, n), _idx(ts.kdof, n)
+    if kd != el:
+        return ("disagree", tag + "-kdof", kd, el)
+    pc = ts.pc
+    Mm = np.eye(n) if M is None else M
+    cond = 1.0
+    if el:
+        ee = np.ix_(el, el)
+        sp = _delconj_spec(pc, _state_matrix(Mm[ee], B[ee], K[ee]))
+        if isinstance(sp, str):
+            return ("skip", tag + ": " + sp)
+        res, c = sp
+        if c > 1e6 or not pc.eig_success:
+            return ("skip", tag + ": eigenvectors ill conditioned (cond > 1e6)")
+        grade = _slow_mode_grade(pc.lam, h)
+        if grade is None:
+            return ("skip", tag + ": a mode with |lam| h < 1e-3 (cancellation in Ae, Be: out of the conditioning domain)")
+        cond = c * grade
+        ctx.count(tag + ":spec-checked")
+        _note(tag + "-eig-spec-residual-over-cond", res / max(10.0, c))
+        if not res <= 1e-9 * max(10.0, c):
+            # the implementation's own decomposition does not satisfy the hypotheses of delconj_recovers
+            return ("disagree", tag + "-eig-spec", {"residual": res, "cond": c}, "<= 1e-9*cond")
+        if np.any(np.abs(np.asarray(pc.lam)) < 5e-5):
+            ctx.count(tag + ":small-eigenvalue-branch")
+    want_static = bool(d0 is None and static and el)
+    x, sols = yield from _job_static_msolve(M, K, F, el, [el, rb], want_static)
+    if isinstance(x, str):
+        return ("disagree", tag + "-singular", "a solution", "the model's elimination meets a zero pivot")
+    imf, rbf = sols
+    dm0 = d0.copy() if d0 is not None else np.zeros(n)
+    if want_static:
+        dm0[el] = x
+        ctx.count(tag + ":static-by-model")
+    vm0 = v0.copy() if v0 is not None else np.zeros(n)
+    reqs = []
+    if el and nt:
+        N = len(pc.lam)
+        reqs.append("cpl %d %s %d %d %s %s %s %s %s %s %s %d %s" % (
+            o, bits(h), len(el), N, _cmat(pc.lam), _cmat(pc.ur_v), _cmat(pc.ur_d), _cmat(pc.ur_inv_v),
+            _cmat(pc.ur_inv_d), _fmat(dm0[el]), _fmat(vm0[el]), nt, _fmat(imf)))
+    for i, g in enumerate(rb):
+        reqs.append("rbrun %d %s %d %s %s %s" % (o, bits(h), nt, bits(dm0[g]), bits(vm0[g]), _fmat(rbf[i])))
+    rep = list((yield reqs))
+    d, v, a = np.zeros((n, nt)), np.zeros((n, nt)), np.zeros((n, nt))
+    if el and nt:
+        xx = _fvals(rep.pop(0), "a coupled system")
+        d[el] = xx[: len(el) * nt].reshape(len(el), nt)
+        v[el] = xx[len(el) * nt:].reshape(len(el), nt)
+    for i, g in enumerate(rb):
+        xx = _fvals(rep.pop(0), "a rigid-body run")
+        d[g], v[g] = xx[:nt], xx[nt:]
+    if el and nt:
+        ee = np.ix_(el, el)
+        rep = yield ["accelc %d %s %s %s %d %s %s %s" % (
+            len(el), "none" if M is None else "mat " + _fmat(M[ee]), _fmat(B[ee]), _fmat(K[ee]), nt,
+            _fmat(d[el]), _fmat(v[el]), _fmat(F[el]))]
+        if rep[0] == "singular":
+            return ("disagree", tag + "-singular", "an acceleration", "the model's elimination meets a zero pivot")
+        a[el] = _fvals(rep[0], "an acceleration").reshape(len(el), nt)
+    if rb:
+        a[rb] = rbf
+    return {"d": d, "v": v, "a": a, "cond": cond}
+
+
+def _job_exp2(ctx, ts, M, B, K, F, d0, v0, static, tag="exp2"):
+    """the Lean model of SolveExp2.tsolve on the matrices the solver works with, driven by its own E, P, Q; linear
+    solves by the model.  rf rows (uncoupled only) are the static solution F / k."""
+    n, nt = F.shape
+    h, o = ts.h, ts.order
+    kd, el, rf = _idx(ts.kdof, n), _idx(ts.el, n), _idx(ts.rf, n)
+    if not kd:
+        return ("skip", tag + ": no dynamic equation")
+    Mm = np.eye(n) if M is None else M
+    ks = len(kd)
+    kk_ = np.ix_(kd, kd)
+    A = _state_matrix(Mm[kk_], B[kk_], K[kk_])
+    E = np.block([[ts.E_vv, ts.E_vd], [ts.E_dv, ts.E_dd]])
+    P = np.asarray(ts.P)
+    Q = np.asarray(ts.Q) if o == 1 else None
+    Er, Pr, Qr = _epq_reference(A, h, o, ks)
+    es = max(1.0, np.abs(Er).max())
+    res = max(np.abs(E - Er).max() / es, np.abs(P - Pr).max() / (h * es),
+              0.0 if Q is None else np.abs(Q - Qr).max() / (h * es))
+    ctx.count(tag + ":spec-checked")
+    _note(tag + "-epq-spec-residual", res)
+    if not res <= 1e-8:
+        # the implementation's own E, P, Q do not satisfy the hypotheses of exp2_step_exact
+        return ("disagree", tag + "-epq-spec", {"residual": float(res)}, "<= 1e-8")
+    want_static = bool(d0 is None and static and el)
+    x, sols = yield from _job_static_msolve(M, K, F, el, [kd], want_static)
+    if isinstance(x, str):
+        return ("disagree", tag + "-singular", "a solution", "the model's elimination meets a zero pivot")
+    imf = sols[0]
+    dm0 = d0.copy() if d0 is not None else np.zeros(n)
+    if want_static:
+        dm0[el] = x
+        ctx.count(tag + ":static-by-model")
+    vm0 = v0.copy() if v0 is not None else np.zeros(n)
+    rep = yield ["exp2 %d %d %s %s %s%s %s %d %s" % (
+        o, ks, _fmat(E), _fmat(P), (_fmat(Q) + " ") if o == 1 else "", _fmat(dm0[kd]), _fmat(vm0[kd]), nt, _fmat(imf))]
+    xx = _fvals(rep[0], "an exp2 system")
+    d, v, a = np.zeros((n, nt)), np.zeros((n, nt)), np.zeros((n, nt))
+    d[kd] = xx[: ks * nt].reshape(ks, nt)
+    v[kd] = xx[ks * nt:].reshape(ks, nt)
+    rep = yield ["accelc %d %s %s %s %d %s %s %s" % (
+        ks, "none" if M is None else "mat " + _fmat(M[kk_]), _fmat(B[kk_]), _fmat(K[kk_]), nt,
+        _fmat(d[kd]), _fmat(v[kd]), _fmat(F[kd]))]
+    if rep[0] == "singular":
+        return ("disagree", tag + "-singular", "an acceleration", "the model's elimination meets a zero pivot")
+    a[kd] = _fvals(rep[0], "an acceleration").reshape(ks, nt)
+    for g in rf:
+        d[g] = F[g] / K[g, g]
+    return {"d": d, "v": v, "a": a, "cond": 1.0, "kd": kd, "rf": rf}
+
+
+def _compare_hist(sol, m, h, rows=None):
+    """largest scaled differences of d, v, a between the implementation's solution and the model's: (name, error) of
+    the first quantity above `tol`, else None; also returns the worst error"""
+    d, v, a = m["d"], m["v"], m["a"]
+    rows = list(range(d.shape[0])) if rows is None else rows
+    sd = np.abs(d[rows]).max() + h * np.abs(v).max() + 1e-300
+    sv = np.abs(v).max() + sd / h
+    sa = np.abs(a).max() + sv / h
+    out = []
+    for nm, iv, mv, sc in (("d", np.asarray(sol.d)[rows], d[rows], sd), ("v", sol.v, v, sv), ("a", sol.a, a, sa)):
+        iv = np.asarray(iv)
+        if iv.shape != mv.shape:
+            out.append((nm, float("inf")))
+            continue
+        out.append((nm, float(np.abs(iv - mv).max() / sc) if mv.size else 0.0))
+    return out
+
+
 def _corr_pc(ctx, drv):
     ode = _ode()
     rng = ctx.np_rng(7)
@@ -1146,93 +1390,26 @@ def _corr_pc(ctx, drv):
         if ts.unc:
             ctx.skip("pc: system turned out uncoupled")
             continue
-        el, rb = _idx(ts.el, n), _idx(ts.rb, n)
-        kd = _idx(ts.kdof, n)
-        if kd != el:
-            ctx.disagree("pc-kdof", inp, kd, el)
-            continue
-        pc = ts.pc
-        nt = F.shape[1]
-        dm0 = d0.copy() if d0 is not None else (_static_d0(K, F[:, 0], el, n) if s["static"] else np.zeros(n))
-        vm0 = v0.copy() if v0 is not None else np.zeros(n)
-        job = {"s": s, "inp": inp, "sol": sol, "el": el, "rb": rb, "req": [], "cond": 1.0, "M": M, "B": B, "K": K,
-               "F": F, "d0": dm0, "v0": vm0}
+        rb = _idx(ts.rb, n)
         if bool(rb) != bool(s.get("blockphi")):
             ctx.disagree("pc-rb-detection", inp, rb, "rigid-body modes exactly for block mode shapes")
             continue
-        if el:
-            Mee, Bee, Kee = (X[np.ix_(el, el)] for X in (M, B, K))
-            A = _state_matrix(Mee, Bee, Kee)
-            sp = _delconj_spec(pc, A)
-            if isinstance(sp, str):
-                ctx.skip("pc: " + sp)
-                continue
-            res, cond = sp
-            if cond > 1e6 or not pc.eig_success:
-                ctx.skip("pc: eigenvectors ill conditioned (cond > 1e6)")
-                continue
-            grade = _slow_mode_grade(pc.lam, h)
-            if grade is None:
-                ctx.skip("pc: a mode with |lam| h < 1e-3 (cancellation in Ae, Be: out of the conditioning domain)")
-                continue
-            job["cond"] = cond * grade
-            ctx.count("pc:spec-checked")
-            _note("pc-eig-spec-residual-over-cond", res / max(10.0, cond))
-            if not res <= 1e-9 * max(10.0, cond):
-                # the implementation's own decomposition does not satisfy the hypotheses of delconj_recovers
-                ctx.disagree("pc-eig-spec", inp, {"residual": res, "cond": cond}, "<= 1e-9*cond")
-                continue
-            imf = np.linalg.solve(Mee, F[el])
-            ne, N = len(el), len(pc.lam)
-            job["req"].append("cpl %d %s %d %d %s %s %s %s %s %s %s %d %s" % (
-                o, bits(h), ne, N, _cmat(pc.lam), _cmat(pc.ur_v), _cmat(pc.ur_d), _cmat(pc.ur_inv_v),
-                _cmat(pc.ur_inv_d), _fmat(dm0[el]), _fmat(vm0[el]), nt, _fmat(imf)))
-            if np.any(np.abs(np.asarray(pc.lam)) < 5e-5):
-                ctx.count("pc:small-eigenvalue-branch")
-        if rb:
-            rbf = np.linalg.solve(M[np.ix_(rb, rb)], F[rb])
-            job["rbf"] = rbf
-            for i, g in enumerate(rb):
-                job["req"].append("rbrun %d %s %d %s %s %s" % (o, bits(h), nt, bits(dm0[g]), bits(vm0[g]), _fmat(rbf[i])))
-        jobs.append(job)
-    flat = [r for j in jobs for r in j["req"]]
-    rep = iter(drv.ask(flat))
+        jobs.append((s, inp, sol, _job_unc_coupled(ctx, ts, M, B, K, F, d0, v0, s["static"])))
+    results = _drive(drv, [j[3] for j in jobs])
     worst = 0.0
-    for j in jobs:
-        s, sol, el, rb, F = j["s"], j["sol"], j["el"], j["rb"], j["F"]
-        n, nt = s["n"], F.shape[1]
-        d, v = np.zeros((n, nt)), np.zeros((n, nt))
-        bad = None
-        if el:
-            r = next(rep)
-            if not r.startswith("ok "):
-                raise Infra("model refuses a pc-stream system: " + r)
-            x = np.array([unbits(t) for t in r.split()[1:]])
-            d[el] = x[: len(el) * nt].reshape(len(el), nt)
-            v[el] = x[len(el) * nt:].reshape(len(el), nt)
-        for i, g in enumerate(rb):
-            r = next(rep)
-            x = np.array([unbits(t) for t in r.split()[1:]])
-            d[g], v[g] = x[:nt], x[nt:]
-        a = np.zeros((n, nt))
-        M, B, K = j["M"], j["B"], j["K"]
-        if el:
-            ee = np.ix_(el, el)
-            a[el] = np.linalg.solve(M[ee], F[el] - B[ee] @ v[el] - K[ee] @ d[el])
-        if rb:
-            a[rb] = j["rbf"]
-        sd = np.abs(d).max() + s["h"] * np.abs(v).max() + 1e-300
-        sv = np.abs(v).max() + sd / s["h"]
-        sa = np.abs(a).max() + sv / s["h"]
-        tol = 1e-9 * max(10.0, j["cond"])
-        for nm, iv, mv, sc in (("d", sol.d, d, sd), ("v", sol.v, v, sv), ("a", sol.a, a, sa)):
-            e = float(np.abs(np.asarray(iv) - mv).max() / sc)
-            worst = max(worst, e / max(10.0, j["cond"]))
+    for (s, inp, sol, _), m in zip(jobs, results):
+        if isinstance(m, tuple):
+            if m[0] == "skip":
+                ctx.skip(m[1])
+            else:
+                ctx.disagree(m[1], inp, m[2], m[3])
+            continue
+        tol = 1e-9 * max(10.0, m["cond"])
+        for nm, e in _compare_hist(sol, m, s["h"]):
+            worst = max(worst, e / max(10.0, m["cond"]))
             if not e <= tol:
-                bad = (nm, e)
+                ctx.disagree("pc-" + nm, inp, {nm: e}, {"tolerance": tol})
                 break
-        if bad:
-            ctx.disagree("pc-" + bad[0], j["inp"], {bad[0]: bad[1]}, {"tolerance": tol})
     ctx.sample({"stream": "pc", "worst_error_over_cond": float("%.2e" % worst), "systems": len(jobs)})
 
 
@@ -1270,7 +1447,7 @@ def _corr_exp2(ctx, drv):
                       "M": (np.eye(u["n"]) if m is None else m).tolist(), "B": b.tolist(), "K": k.tolist(),
                       "F": u["F"], "d0": u["d0"], "v0": u["v0"], "static": u["static"], "rb": u["rb"], "rf": u["rf"],
                       "unc": {"m": u["m"], "b": u["b"], "k": u["k"], "pack": u["pack"]}, "usys": u})
-    jobs, reqs = [], []
+    jobs = []
     for s in specs:
         M, B, K, F = (np.array(s[x], float) for x in ("M", "B", "K", "F"))
         n, h, o = s["n"], s["h"], s["order"]
@@ -1289,74 +1466,422 @@ def _corr_exp2(ctx, drv):
                     u = s["unc"]
                     mm, bb, kk = _mats({"m": u["m"], "b": u["b"], "k": u["k"]}, u["pack"])
                     ts = ode.SolveExp2(mm, bb, kk, h, rb=s["rb"], rf=s["rf"] or None, order=o)
+                    Mmod = None if mm is None else M
                 else:
                     ts = ode.SolveExp2(M, B, K, h, order=o)
+                    Mmod = M
                 sol = ts.tsolve(F, d0, v0, static_ic=s["static"])
         except Exception as e:  # noqa: BLE001
             ctx.disagree("exp2-raises", inp, "%s: %s" % (type(e).__name__, str(e)[:80]), "a solution")
             continue
-        kd, el, rf = _idx(ts.kdof, n), _idx(ts.el, n), _idx(ts.rf, n)
-        if not kd:
-            ctx.skip("exp2: no dynamic equation")
-            continue
-        ks, nt = len(kd), F.shape[1]
-        kk_ = np.ix_(kd, kd)
-        A = _state_matrix(M[kk_], B[kk_], K[kk_])
-        E = np.block([[ts.E_vv, ts.E_vd], [ts.E_dv, ts.E_dd]])
-        P = np.asarray(ts.P)
-        Q = np.asarray(ts.Q) if o == 1 else None
-        Er, Pr, Qr = _epq_reference(A, h, o, ks)
-        es = max(1.0, np.abs(Er).max())
-        res = max(np.abs(E - Er).max() / es, np.abs(P - Pr).max() / (h * es),
-                  0.0 if Q is None else np.abs(Q - Qr).max() / (h * es))
-        ctx.count("exp2:spec-checked")
-        _note("exp2-epq-spec-residual", res)
-        if not res <= 1e-8:
-            # the implementation's own E, P, Q do not satisfy the hypotheses of exp2_step_exact
-            ctx.disagree("exp2-epq-spec", inp, {"residual": float(res)}, "<= 1e-8")
-            continue
-        if d0 is not None:
-            dm0 = d0.copy()
-        elif s["static"]:
-            dm0 = _static_d0(K, F[:, 0], el, n)
-        else:
-            dm0 = np.zeros(n)
-        vm0 = v0.copy() if v0 is not None else np.zeros(n)
-        imf = np.linalg.solve(M[kk_], F[kd])
-        reqs.append("exp2 %d %d %s %s %s%s %s %d %s" % (
-            o, ks, _fmat(E), _fmat(P), (_fmat(Q) + " ") if o == 1 else "", _fmat(dm0[kd]), _fmat(vm0[kd]), nt, _fmat(imf)))
-        jobs.append((s, inp, sol, kd, rf, M, B, K, F))
-    rep = drv.ask(reqs)
+        jobs.append((s, inp, sol, _job_exp2(ctx, ts, Mmod, B, K, F, d0, v0, s["static"])))
+    results = _drive(drv, [j[3] for j in jobs])
     worst = 0.0
-    for (s, inp, sol, kd, rf, M, B, K, F), r in zip(jobs, rep):
-        if not r.startswith("ok "):
-            raise Infra("model refuses an exp2-stream system: " + r)
-        n, nt, ks = s["n"], F.shape[1], len(kd)
-        x = np.array([unbits(t) for t in r.split()[1:]])
-        d, v, a = np.zeros((n, nt)), np.zeros((n, nt)), np.zeros((n, nt))
-        d[kd] = x[: ks * nt].reshape(ks, nt)
-        v[kd] = x[ks * nt:].reshape(ks, nt)
-        kk_ = np.ix_(kd, kd)
-        a[kd] = np.linalg.solve(M[kk_], F[kd] - B[kk_] @ v[kd] - K[kk_] @ d[kd])
-        for g in rf:
-            d[g] = F[g] / K[g, g]
-        sd = np.abs(d[kd]).max() + s["h"] * np.abs(v).max() + 1e-300
-        sv = np.abs(v).max() + sd / s["h"]
-        sa = np.abs(a).max() + sv / s["h"]
+    for (s, inp, sol, _), m in zip(jobs, results):
+        if isinstance(m, tuple):
+            if m[0] == "skip":
+                ctx.skip(m[1])
+            else:
+                ctx.disagree(m[1], inp, m[2], m[3])
+            continue
         bad = None
-        for nm, iv, mv, sc in (("d", np.asarray(sol.d)[kd], d[kd], sd), ("v", sol.v, v, sv), ("a", sol.a, a, sa)):
-            e = float(np.abs(np.asarray(iv) - mv).max() / sc)
+        for nm, e in _compare_hist(sol, m, s["h"], rows=m["kd"]):
             worst = max(worst, e)
             if not e <= 1e-9:
                 bad = (nm, e)
                 break
+        rf = m["rf"]
         if bad is None and rf:
-            e = float(np.abs(np.asarray(sol.d)[rf] - d[rf]).max() / (np.abs(d[rf]).max() + 1e-300))
+            e = float(np.abs(np.asarray(sol.d)[rf] - m["d"][rf]).max() / (np.abs(m["d"][rf]).max() + 1e-300))
             if not e <= 1e-12:
                 bad = ("d-rf", e)
         if bad:
             ctx.disagree("exp2-" + bad[0], inp, {bad[0]: bad[1]}, {"tolerance": 1e-9})
     ctx.sample({"stream": "exp2", "worst_scaled_error": float("%.2e" % worst), "systems": len(jobs)})
+
+
+# ---------------------------------------------------------------------------------------
+# stream (x): SolveExp1.tsolve.  (x-num) on general first-order systems with the implementation's own E, P, Q (their
+# specification measured against scipy's expm), force arrays of dtype float64 / int64 / float32; (x-exact) the
+# recurrence itself over the rationals: E, P, Q, A replaced by small dyadic matrices (public members of the
+# solver), small whole-numbered forces, so that no operation of the implementation rounds and the histories must be
+# EQUAL to the model's evaluated over Q.
+
+
+def _epq_full_reference(A, h, order):
+    E, P, Q = _epq_reference(A, h, order, A.shape[0])
+    return E, P, Q
+
+
+def _gen_exp1(rng):
+    n = int(rng.integers(1, 6))
+    h = float(10 ** rng.uniform(-2.5, -0.5))
+    style = str(rng.choice(["second-order", "random", "nilpotent"]))
+    if style == "second-order":
+        g = _gen_general(rng)
+        while g["n"] > 3:
+            g = _gen_general(rng)
+        n, h = 2 * g["n"], g["h"]
+        A = _state_matrix(*(np.array(g[x], float) for x in ("M", "B", "K")))
+    elif style == "nilpotent":
+        A = np.triu(rng.standard_normal((n, n)), 1) / h / 4
+    else:
+        style = "random"
+        A = rng.standard_normal((n, n)) / h / 4 - np.eye(n) * rng.uniform(0, 1) / h
+    nt = int(rng.integers(1, 16))
+    dt = str(rng.choice(["float64", "float64", "int64", "float32"]))
+    F = rng.standard_normal((n, nt)) * 10 ** rng.uniform(-1, 2)
+    if dt != "float64":
+        F = np.round(F * 4)
+        if dt == "float32":
+            F = F / 8
+    return {"kind": "exp1", "n": n, "h": h, "order": int(rng.integers(0, 2)), "style": style, "A": A.tolist(),
+            "F": F.tolist(), "dtype": dt, "d0": None if rng.random() < 0.35 else [float(x) for x in rng.standard_normal(n)]}
+
+
+def _exp1_request(op, s, A, E, P, Q):
+    n, nt = np.asarray(s["F"]).shape if np.asarray(s["F"]).ndim == 2 else (s["n"], 0)
+    t = [op, str(s["order"]), s["dtype"], str(n), _fmat(A), _fmat(E), _fmat(P)]
+    if s["order"] == 1:
+        t.append(_fmat(Q))
+    t += ["n"] if s["d0"] is None else ["y", _fmat(s["d0"])]
+    t += [str(nt), _fmat(np.asarray(s["F"], float))]
+    return " ".join(x for x in t if x != "")
+
+
+def _corr_exp1(ctx, drv):
+    ode = _ode()
+    rng = ctx.np_rng(9)
+    # ---- numeric, the implementation's own E, P, Q -------------------------------------------------
+    specs = [_gen_exp1(rng) for _ in range(ctx.pick(300, 3000))]
+    jobs, reqs = [], []
+    for s in specs:
+        A = np.array(s["A"], float)
+        F = np.array(s["F"], float).reshape(s["n"], -1).astype(s["dtype"])
+        inp = dict(s, stream="exp1")
+        ctx.case(json.dumps(s, sort_keys=True), nontrivial=F.shape[1] >= 3, branch="exp1:order%d" % s["order"])
+        ctx.count("exp1:dtype-" + s["dtype"])
+        ctx.count("exp1:style-" + s["style"])
+        ctx.count("exp1:d0-" + ("given" if s["d0"] is not None else "none"))
+        try:
+            with warnings.catch_warnings():
+                warnings.simplefilter("ignore")
+                ts = ode.SolveExp1(A, s["h"], order=s["order"])
+                sol = ts.tsolve(F, _arr(s["d0"]))
+        except Exception as e:  # noqa: BLE001
+            ctx.disagree("exp1-raises", inp, "%s: %s" % (type(e).__name__, str(e)[:80]), "a solution")
+            continue
+        E, P = np.asarray(ts.E), np.asarray(ts.P)
+        Q = np.asarray(ts.Q) if s["order"] == 1 else None
+        Er, Pr, Qr = _epq_full_reference(A, s["h"], s["order"])
+        es = max(1.0, np.abs(Er).max())
+        res = max(np.abs(E - Er).max() / es, np.abs(P - Pr).max() / (s["h"] * es),
+                  0.0 if Q is None else np.abs(Q - Qr).max() / (s["h"] * es))
+        ctx.count("exp1:spec-checked")
+        _note("exp1-epq-spec-residual", res)
+        if not res <= 1e-8:
+            # the implementation's own E, P, Q do not satisfy the hypotheses of exp1_step_exact
+            ctx.disagree("exp1-epq-spec", inp, {"residual": float(res)}, "<= 1e-8")
+            continue
+        reqs.append(_exp1_request("exp1", s, A, E, P, Q))
+        jobs.append((s, inp, sol, A, F))
+    worst = 0.0
+    for (s, inp, sol, A, F), r in zip(jobs, drv.ask(reqs)):
+        t = r.split()
+        if t[0] != "ok":
+            raise Infra("model refuses an exp1-stream system: " + r[:100])
+        n, nt = F.shape
+        if (str(np.asarray(sol.d).dtype), str(np.asarray(sol.v).dtype)) != (t[1], t[2]):
+            ctx.disagree("exp1-dtype", inp, [str(np.asarray(sol.d).dtype), str(np.asarray(sol.v).dtype)], t[1:3])
+            continue
+        x = np.array([unbits(u) for u in t[3:]])
+        d, v = x[: n * nt].reshape(n, nt), x[n * nt:].reshape(n, nt)
+        sd = np.abs(d).max() + 1e-300 if d.size else 1.0
+        sv = (np.abs(A).max() * n * sd + np.abs(F).max() + 1e-300) if d.size else 1.0
+        for nm, iv, mv, sc in (("d", sol.d, d, sd), ("v", sol.v, v, sv)):
+            e = float(np.abs(np.asarray(iv, float) - mv).max() / sc) if mv.size else 0.0
+            worst = max(worst, e)
+            if not e <= 1e-9:
+                ctx.disagree("exp1-" + nm, inp, {nm: e}, {"tolerance": 1e-9})
+                break
+    ctx.sample({"stream": "exp1", "worst_scaled_error": float("%.2e" % worst), "systems": len(jobs)})
+    # ---- exact, dyadic E, P, Q, A ----------------------------------------------------------------------
+    jobs, reqs = [], []
+    for _ in range(ctx.pick(150, 1500)):
+        n = int(rng.integers(1, 4))
+        nt = int(rng.integers(1, 7))
+        order = int(rng.integers(0, 2))
+        dy = lambda shape, lim, den: rng.integers(-lim, lim + 1, shape) / den  # noqa: E731
+        A, E, P, Q = dy((n, n), 6, 4.0), dy((n, n), 6, 4.0), dy((n, n), 6, 4.0), dy((n, n), 6, 4.0)
+        dt = str(rng.choice(["float64", "int64", "float32"]))
+        F = rng.integers(-4, 5, (n, nt)).astype(float)
+        if dt == "float64":
+            F = F / 2
+        d0 = None if rng.random() < 0.4 else [float(x) for x in dy(n, 5, 2.0)]
+        s = {"kind": "exp1x", "n": n, "h": 0.5, "order": order, "A": A.tolist(), "E": E.tolist(), "P": P.tolist(),
+             "Q": Q.tolist(), "F": F.tolist(), "dtype": dt, "d0": d0}
+        inp = dict(s, stream="exp1x")
+        ctx.case(json.dumps(s, sort_keys=True), nontrivial=nt >= 2, branch="exp1x:order%d" % order)
+        ctx.count("exp1x:dtype-" + dt)
+        if nt == 1:
+            ctx.count("exp1x:single-sample")
+        try:
+            ts = ode.SolveExp1(A, 0.5, order=order)
+            ts.E, ts.P, ts.Q = E.copy(), P.copy(), (Q.copy() if order == 1 else 0.0)
+            sol = ts.tsolve(F.reshape(n, nt).astype(dt), _arr(d0))
+        except Exception as e:  # noqa: BLE001
+            ctx.disagree("exp1x-raises", inp, "%s: %s" % (type(e).__name__, str(e)[:80]), "a solution")
+            continue
+        reqs.append(_exp1_request("exp1x", dict(s, F=F.reshape(n, nt).tolist()), A, E, P, Q))
+        jobs.append((s, inp, sol, n, nt))
+    for (s, inp, sol, n, nt), r in zip(jobs, drv.ask(reqs)):
+        t = r.split()
+        if t[0] != "ok":
+            raise Infra("model refuses an exp1x-stream system: " + r[:100])
+        if (str(np.asarray(sol.d).dtype), str(np.asarray(sol.v).dtype)) != (t[1], t[2]):
+            ctx.disagree("exp1x-dtype", inp, [str(np.asarray(sol.d).dtype), str(np.asarray(sol.v).dtype)], t[1:3])
+            continue
+        q = [Fraction(int(a), int(b)) for a, b in (u.split("/") for u in t[3:])]
+        impl = [Fraction(float(x)) for x in np.asarray(sol.d, float).ravel()] + \
+               [Fraction(float(x)) for x in np.asarray(sol.v, float).ravel()]
+        if np.asarray(sol.d).shape != (n, nt) or impl != q:
+            k_ = next((i for i, (a, b) in enumerate(zip(impl, q)) if a != b), -1)
+            ctx.disagree("exp1x-exact", inp, {"first-difference-at": k_, "impl": str(impl[k_]) if k_ >= 0 else "shape"},
+                         {"model": str(q[k_]) if k_ >= 0 else [n, nt]})
+
+
+# ---------------------------------------------------------------------------------------
+# stream (e): pre_eig=True.  The Lean model of `_do_pre_eig` / `_init_dva` / `_solution` gets the implementation's own
+# mode shapes phi (the result of la.eigh is an input of the model; its specification phi' M phi = 1,
+# phi' K phi = diag(w) is measured), computes the modal damping, the modal force and the modal initial conditions
+# (la.solve(phi, d0) by the model's elimination); the modal problem is then solved by the model of the path the
+# solver takes (uncoupled closed form / complex-eigenvalue path / SolveExp2) and mapped back.
+# (e-exact): diagonal systems with masses 4^j and dyadic stiffness: la.eigh is exact there (phi = a signed, scaled
+# permutation), the whole first sample (initial state + acceleration, nt = 1) is compared EXACTLY over Q.
+
+
+def _gen_preeig(rng):
+    g = _gen_general(rng)
+    while g["style"] == "skew-on-zero-stiffness":
+        g = _gen_general(rng)
+    n = g["n"]
+    M, B, K = (np.array(g[x], float) for x in ("M", "B", "K"))
+    K = (K + K.T) / 2
+    mform = str(rng.choice(["none", "vec", "mat"]))
+    if mform == "none":
+        M = np.eye(n)
+    elif mform == "vec":
+        M = np.diag(rng.uniform(0.3, 3.0, n))
+    bform = str(rng.choice(["vec", "mat"]))
+    if bform == "vec":
+        B = np.diag(np.abs(np.diag(B)) + rng.uniform(0, 0.5, n))
+    if g["nz"]:
+        # zero-stiffness DOF: rigid-body modes after the transformation only if the damping leaves them alone
+        B[: g["nz"], :] = 0.0
+        B[:, : g["nz"]] = 0.0
+    g.update(kind="preeig", M=M.tolist(), B=B.tolist(), K=K.tolist(), mform=mform, bform=bform,
+             solver=str(rng.choice(["SolveUnc", "SolveExp2"])),
+             static=bool(g["d0"] is None and rng.random() < 0.5))
+    return g
+
+
+def _preeig_args(s):
+    M, B, K = (np.array(s[x], float) for x in ("M", "B", "K"))
+    m = None if s["mform"] == "none" else (np.diag(M).copy() if s["mform"] == "vec" else M)
+    b = np.diag(B).copy() if s["bform"] == "vec" else B
+    return m, b, K
+
+
+def _job_preeig(ctx, s, ts, sol):
+    M, B, K, F = (np.array(s[x], float) for x in ("M", "B", "K", "F"))
+    n, nt = F.shape
+    h = s["h"]
+    d0, v0 = _arr(s["d0"]), _arr(s["v0"])
+    phi = np.asarray(ts.phi, float)
+    # the specification of la.eigh, measured on the implementation's own phi
+    G = phi.T @ M @ phi
+    W = phi.T @ K @ phi
+    w = np.diag(W).copy()
+    ks = max(1.0, np.abs(w).max())
+    cond = float(np.linalg.cond(phi))
+    res = max(np.abs(G - np.eye(n)).max(), np.abs(W - np.diag(w)).max() / ks)
+    _note("pe-eigh-spec-residual", res)
+    ctx.count("pe:spec-checked")
+    if not res <= 1e-9 * max(10.0, cond):
+        # the implementation's own mode shapes do not satisfy the hypotheses of pre_eig_solution_is_solution
+        return ("disagree", "pe-eigh-spec", {"residual": float(res), "cond": cond}, "phi' M phi = 1, phi' K phi diagonal")
+    if ts.m is not None:
+        return ("disagree", "pe-mass", "m kept", "m = None after the transformation")
+    breq = "vec " + _fmat(np.diag(B)) if s["bform"] == "vec" else "mat " + _fmat(B)
+    rep = yield ["pe %d %s %s %s %s %d %s" % (
+        n, breq, _fmat(phi), "n" if d0 is None else "y " + _fmat(d0), "n" if v0 is None else "y " + _fmat(v0),
+        nt, _fmat(F))]
+    if rep[0] == "singular":
+        return ("disagree", "pe-singular", "a solution", "phi singular for the model's elimination")
+    t = rep[0].split()[1:]
+    bm = np.array([unbits(x) for x in t[: n * n]]).reshape(n, n)
+    Fm = np.array([unbits(x) for x in t[n * n: n * n + n * nt]]).reshape(n, nt)
+    t = t[n * n + n * nt:]
+    q = []
+    for _ in range(2):
+        if t[0] == "n":
+            q.append(None)
+            t = t[1:]
+        else:
+            q.append(np.array([unbits(x) for x in t[1: n + 1]]))
+            t = t[n + 1:]
+    q0, qv0 = q
+    Km = np.diag(w)
+    if s["solver"] == "SolveExp2":
+        m = yield from _job_exp2(ctx, ts, None, bm, Km, Fm, q0, qv0, s["static"], tag="pe")
+    elif ts.unc:
+        ctx.count("pe:modal-system-uncoupled")
+        u = {"n": n, "h": h, "m": None, "b": [float(x) for x in np.diag(bm)], "k": [float(x) for x in w],
+             "order": s["order"], "rb": None, "rf": [], "static": s["static"],
+             "d0": None if q0 is None else q0.tolist(), "v0": None if qv0 is None else qv0.tolist(), "F": Fm.tolist()}
+        rep = yield [_sys_request(u)]
+        mm = _sys_reply(rep[0], n, nt)
+        if isinstance(mm, str):
+            return ("disagree", "pe-modal-model-refuses", "a solution", mm)
+        m = {"d": mm[0], "v": mm[1], "a": mm[2], "cond": 1.0}
+    else:
+        m = yield from _job_unc_coupled(ctx, ts, None, bm, Km, Fm, q0, qv0, s["static"], tag="pe")
+    if isinstance(m, tuple):
+        return m
+    rep = yield ["perec %d %s %d %s %s %s" % (n, _fmat(phi), nt, _fmat(m["d"]), _fmat(m["v"]), _fmat(m["a"]))]
+    x = _fvals(rep[0], "a pre_eig recovery")
+    return {"d": x[: n * nt].reshape(n, nt), "v": x[n * nt: 2 * n * nt].reshape(n, nt),
+            "a": x[2 * n * nt:].reshape(n, nt), "cond": max(m["cond"], cond)}
+
+
+def _corr_preeig(ctx, drv):
+    ode = _ode()
+    rng = ctx.np_rng(10)
+    jobs = []
+    for _ in range(ctx.pick(300, 3000)):
+        s = _gen_preeig(rng)
+        inp = dict(s, stream="pe")
+        m, b, K = _preeig_args(s)
+        F = np.array(s["F"], float)
+        ctx.case(json.dumps(s, sort_keys=True), nontrivial=F.shape[1] >= 3, branch="pe:order%d" % s["order"])
+        for tag in ("pe:mass-" + s["mform"], "pe:damping-" + s["bform"], "pe:" + s["solver"],
+                    "pe:d0-" + ("given" if s["d0"] is not None else "none"),
+                    "pe:v0-" + ("given" if s["v0"] is not None else "none")):
+            ctx.count(tag)
+        if s["static"]:
+            ctx.count("pe:static-ic")
+        try:
+            with warnings.catch_warnings():
+                warnings.simplefilter("ignore")
+                ts = getattr(ode, s["solver"])(m, b, K, s["h"], order=s["order"], pre_eig=True)
+                sol = ts.tsolve(F, _arr(s["d0"]), _arr(s["v0"]), static_ic=s["static"])
+        except Exception as e:  # noqa: BLE001
+            ctx.disagree("pe-raises", inp, "%s: %s" % (type(e).__name__, str(e)[:80]), "a solution")
+            continue
+        if not getattr(ts, "pre_eig", False):
+            ctx.disagree("pe-not-done", inp, "pre_eig skipped", "pre_eig performed (a 2-D matrix is present)")
+            continue
+        if _idx(ts.rb, s["n"]):
+            ctx.count("pe:with-rigid-body-modes")
+        jobs.append((s, inp, sol, _job_preeig(ctx, s, ts, sol)))
+    results = _drive(drv, [j[3] for j in jobs])
+    worst = 0.0
+    for (s, inp, sol, _), m in zip(jobs, results):
+        if isinstance(m, tuple):
+            if m[0] == "skip":
+                ctx.skip(m[1])
+            else:
+                ctx.disagree(m[1], inp, m[2], m[3])
+            continue
+        tol = 1e-9 * max(10.0, m["cond"])
+        for nm, e in _compare_hist(sol, m, s["h"]):
+            worst = max(worst, e / max(10.0, m["cond"]))
+            if not e <= tol:
+                ctx.disagree("pe-" + nm, inp, {nm: e}, {"tolerance": tol})
+                break
+    ctx.sample({"stream": "pe", "worst_error_over_cond": float("%.2e" % worst), "systems": len(jobs)})
+    # ---- exact: diagonal systems on which la.eigh is exact -------------------------------------------------------
+    jobs, reqs = [], []
+    for _ in range(ctx.pick(200, 2000)):
+        n = int(rng.integers(2, 6))
+        mform = str(rng.choice(["none", "vec", "mat"]))
+        mass = np.ones(n) if mform == "none" else 4.0 ** rng.integers(-2, 3, n)
+        # distinct modal stiffnesses k/m (so that the eigenvectors are determined), possibly one zero (rigid-body mode)
+        # (powers of two: the static initial state F/k of the modal equations is then a dyadic number as well)
+        wv = 2.0 ** rng.permutation(np.arange(-3, 4))[:n]
+        if rng.random() < 0.4:
+            wv[int(rng.integers(0, n))] = 0.0
+        kd = wv * mass
+        bform = str(rng.choice(["vec", "mat"]))
+        bd = rng.integers(0, 6, n) / 4.0
+        F0 = rng.integers(-4, 5, n).astype(float)
+        if rng.random() < 0.15:
+            F0[:] = 0.0
+        d0 = None if rng.random() < 0.5 else [float(x) for x in rng.integers(-4, 5, n) / 2.0]
+        v0 = None if rng.random() < 0.5 else [float(x) for x in rng.integers(-4, 5, n) / 2.0]
+        s = {"kind": "pex", "n": n, "h": 0.25, "order": int(rng.integers(0, 2)), "mform": mform, "bform": bform,
+             "m": mass.tolist(), "b": bd.tolist(), "k": kd.tolist(), "F0": F0.tolist(), "d0": d0, "v0": v0,
+             "static": bool(rng.random() < 0.5), "solver": str(rng.choice(["SolveUnc", "SolveExp2"]))}
+        inp = dict(s, stream="pex")
+        ctx.case(json.dumps(s, sort_keys=True), nontrivial=True, branch="pex:" + s["solver"])
+        for tag in ("pex:mass-" + mform, "pex:damping-" + bform):
+            ctx.count(tag)
+        if s["static"] and d0 is None:
+            ctx.count("pex:static-ic")
+        if np.any(wv == 0):
+            ctx.count("pex:with-rigid-body-mode")
+        m = None if mform == "none" else (mass.copy() if mform == "vec" else np.diag(mass))
+        b = bd.copy() if bform == "vec" else np.diag(bd)
+        K = np.diag(kd)
+        try:
+            with warnings.catch_warnings():
+                warnings.simplefilter("ignore")
+                ts = getattr(ode, s["solver"])(m, b, K, 0.25, order=s["order"], pre_eig=True)
+                sol = ts.tsolve(F0[:, None], _arr(d0), _arr(v0), static_ic=s["static"])
+        except Exception as e:  # noqa: BLE001
+            ctx.disagree("pex-raises", inp, "%s: %s" % (type(e).__name__, str(e)[:80]), "a solution")
+            continue
+        phi = np.asarray(ts.phi, float)
+        fr = lambda a: [[Fraction(float(x)) for x in row] for row in np.atleast_2d(a)]  # noqa: E731
+        P_, Mq, Kq = fr(phi), fr(np.diag(mass)), fr(K)
+        mul = lambda X, Y: [[sum(X[i][k] * Y[k][j] for k in range(n)) for j in range(n)] for i in range(n)]  # noqa: E731
+        PT = [list(r) for r in zip(*P_)]
+        G, Wq = mul(mul(PT, Mq), P_), mul(mul(PT, Kq), P_)
+        if G != [[Fraction(int(i == j)) for j in range(n)] for i in range(n)] or \
+                any(Wq[i][j] != 0 for i in range(n) for j in range(n) if i != j):
+            # la.eigh not exact here (should not happen on these inputs): leave the case to the numeric stream
+            ctx.skip("pex: la.eigh not exact on a diagonal dyadic system")
+            continue
+        w = [Wq[i][i] for i in range(n)]
+        ctx.count("pex:eigh-exact")
+        reqs.append("pex %d %s %s %s %s %s %s %s" % (
+            n, ("vec " + _fmat(bd)) if bform == "vec" else ("mat " + _fmat(np.diag(bd))), _fmat(phi),
+            _fmat([float(x) for x in w]), "1" if s["static"] else "0", "n" if d0 is None else "y " + _fmat(d0),
+            "n" if v0 is None else "y " + _fmat(v0), _fmat(F0)))
+        jobs.append((s, inp, sol, ts, w))
+    for (s, inp, sol, ts, w), r in zip(jobs, drv.ask(reqs)):
+        n = s["n"]
+        if r == "singular":
+            ctx.disagree("pex-singular", inp, "a solution", "phi singular for the model's elimination")
+            continue
+        q = _qvals(r, "a pex-stream system")
+        bm, rest = q[: n * n], q[n * n:]
+        tb = np.asarray(ts.b, float)
+        tb = np.diag(tb) if tb.ndim == 1 else tb
+        impl_b = [Fraction(float(x)) for x in tb.ravel()]
+        tk = np.asarray(ts.k, float)
+        tk = tk if tk.ndim == 1 else np.diag(tk)
+        if impl_b != bm:
+            ctx.disagree("pex-modal-damping", inp, [str(x) for x in impl_b], [str(x) for x in bm])
+            continue
+        if [Fraction(float(x)) for x in tk] != list(w):
+            ctx.disagree("pex-modal-stiffness", inp, tk.tolist(), [str(x) for x in w])
+            continue
+        impl = [Fraction(float(x)) for arr in (sol.d, sol.v, sol.a) for x in np.asarray(arr, float)[:, 0]]
+        if impl != rest:
+            k_ = next(i for i, (a, b) in enumerate(zip(impl, rest)) if a != b)
+            ctx.disagree("pex-exact", inp, {"quantity": "dva"[k_ // n], "row": k_ % n, "impl": str(impl[k_])},
+                         {"model": str(rest[k_])})
 
 
 def correspondence(ctx):
@@ -1369,6 +1894,8 @@ def correspondence(ctx):
     _corr_partc(ctx, drv)
     _corr_pc(ctx, drv)
     _corr_exp2(ctx, drv)
+    _corr_exp1(ctx, drv)
+    _corr_preeig(ctx, drv)
     ctx.require_branches(
         ["coef:" + r for r in "rigid rigidVelo rigidFull under crit over rf partition-error".split()]
         + ["coef-tag:cut:velo", "coef-tag:cut:disp", "coef-tag:cut:rb", "coef-tag:cut:crit",
@@ -1384,7 +1911,17 @@ def correspondence(ctx):
            "pc:static-ic-with-rigid-body-modes",
            "pc:style-modal", "pc:style-skew", "pc:style-sym+skew", "pc:style-sym",
            "exp2:order0", "exp2:order1", "exp2:with-rf", "exp2:static-ic",
-           "exp2:style-uncoupled", "exp2:style-skew", "exp2:style-sym+skew"]
+           "exp2:style-uncoupled", "exp2:style-skew", "exp2:style-sym+skew",
+           "pc:static-by-model", "exp2:static-by-model",
+           "exp1:order0", "exp1:order1", "exp1:dtype-float64", "exp1:dtype-int64", "exp1:dtype-float32",
+           "exp1:style-second-order", "exp1:style-random", "exp1:style-nilpotent", "exp1:d0-given", "exp1:d0-none",
+           "exp1x:order0", "exp1x:order1", "exp1x:dtype-float64", "exp1x:dtype-int64", "exp1x:dtype-float32",
+           "exp1x:single-sample",
+           "pe:order0", "pe:order1", "pe:mass-none", "pe:mass-vec", "pe:mass-mat", "pe:damping-vec", "pe:damping-mat",
+           "pe:SolveUnc", "pe:SolveExp2", "pe:d0-given", "pe:d0-none", "pe:v0-given", "pe:static-ic",
+           "pe:with-rigid-body-modes", "pe:modal-system-uncoupled", "pe:static-by-model",
+           "pex:SolveUnc", "pex:SolveExp2", "pex:mass-none", "pex:mass-vec", "pex:mass-mat", "pex:damping-vec",
+           "pex:damping-mat", "pex:static-ic", "pex:with-rigid-body-mode", "pex:eigh-exact"]
     )
 
 
